@@ -27,3 +27,16 @@ item("footerMinFill", AR, r"while b\.buf_len\(\) < (\d+) \{", "Dearmor::read Par
 item("dearmorDefaultLimit", AR, r"limit: (1024 \* 1024 \* 1024),", "DearmorOptions::default limit")
 item("pinnedUnupdatedCrc", AR, r"calculated_crc: (0x[0-9a-fA-F]+),", "test_dearmor_bad_crc24: calculated_crc pinned by the repo's own test (D10)")
 item("readChecksumBufLen", AR, r"fn read_checksum.*?let mut buf = \[0; (\d+)\];", "read_checksum: scratch buffer length")
+# ---- header lines: separator literals on both sides, shape of key_value_pair (repair of D10c) ----
+def _ch(k):
+    return lambda s: ord(s[k])
+item("wrKvSep0", AW, r"writer\.write_all\(key\.as_bytes\(\)\)\?;\s*writer\.write_all\(&b\"(..)\"\[\.\.\]\)\?;", "write_header: first octet written between key and value", raw=_ch(0))
+item("wrKvSep1", AW, r"writer\.write_all\(key\.as_bytes\(\)\)\?;\s*writer\.write_all\(&b\"(..)\"\[\.\.\]\)\?;", "write_header: second octet written between key and value", raw=_ch(1))
+item("wrKvLineEnd", AW, r"writer\.write_all\(value\.as_bytes\(\)\)\?;\s*writer\.write_all\(&b\"\\(n)\"\[\.\.\]\)\?;", "write_header: header lines end in LF", raw=lambda s: {"n": 10, "r": 13}[s])
+item("rdKvSep0", AR, r"fn key_value_pair.*?line\.split_once\(\"(..)\"\)", "key_value_pair: first octet of the key/value separator", raw=_ch(0))
+item("rdKvSep1", AR, r"fn key_value_pair.*?line\.split_once\(\"(..)\"\)", "key_value_pair: second octet of the key/value separator", raw=_ch(1))
+item("rdKvEmptySuffix", AR, r"fn key_value_pair.*?line\.strip_suffix\('(.)'\)", "key_value_pair: suffix that marks an empty value", raw=_ch(0))
+flag("kvLineBased", AR, r"fn key_value_pair\(i: &\[u8\]\) -> IResult<&\[u8\], \(&str, &str\)> \{\s*let \(rest, line\) = map_res\(not_line_ending, str::from_utf8\)\.parse\(i\)\?;\s*let \(rest, _\) = line_ending\(rest\)\?;",
+     "key_value_pair takes exactly one line (repair of D10c, commit 737e504)")
+flag("kvWholeInputSearch", AR, r"complete\(take_until1\(", "key_value_pair no longer searches the whole remaining input (pre-737e504 shape)")
+flag("kvPairsComplete", AR, r"fn key_value_pairs.*?many0\(complete\(key_value_pair\)\)\.parse\(i\)", "key_value_pairs: many0(complete(key_value_pair)) (D10b)")
